@@ -269,9 +269,28 @@ type RecConn struct {
 	// carrying FragmentAt bytes of the handshake message (a ClientHello spanning two records).
 	FragmentAt int
 	fragDone   bool
+	// TailCCS > 0: the first handshake record is sent in two TCP segments - TailCCS bytes, a pause, then the rest of the record
+	// together with a change_cipher_spec record (as TLS 1.3 clients in middlebox-compatibility mode may coalesce them)
+	TailCCS  int
+	tailDone bool
 }
 
 func (c *RecConn) Write(p []byte) (int, error) {
+	if c.TailCCS > 0 && !c.tailDone && len(p) > c.TailCCS && len(p) >= 5 && p[0] == 22 {
+		c.tailDone = true
+		c.mu.Lock()
+		c.Written = append(c.Written, p...)
+		c.mu.Unlock()
+		if _, err := c.Conn.Write(p[:c.TailCCS]); err != nil {
+			return 0, err
+		}
+		time.Sleep(30 * time.Millisecond)
+		rest := append(append([]byte{}, p[c.TailCCS:]...), 0x14, 0x03, 0x03, 0x00, 0x01, 0x01)
+		if _, err := c.Conn.Write(rest); err != nil {
+			return 0, err
+		}
+		return len(p), nil
+	}
 	if c.FragmentAt > 0 && !c.fragDone && len(p) >= 5 && p[0] == 22 {
 		c.fragDone = true
 		n := int(p[3])<<8 | int(p[4])
@@ -369,6 +388,7 @@ type Client struct {
 func (c *Client) Close() { c.Conn.Close() }
 
 type DialOpts struct {
+	TailCCS  int
 	Fragment int
 	Segment  int
 	Gap      time.Duration
@@ -386,7 +406,7 @@ func dialRaw(addr string, o DialOpts) (*RecConn, error) {
 	if tc, ok := c.(*net.TCPConn); ok {
 		tc.SetNoDelay(true)
 	}
-	return &RecConn{Conn: c, Segment: o.Segment, Gap: o.Gap, FragmentAt: o.Fragment}, nil
+	return &RecConn{Conn: c, Segment: o.Segment, Gap: o.Gap, FragmentAt: o.Fragment, TailCCS: o.TailCCS}, nil
 }
 
 // DialUTLS handshakes with a custom ClientHelloSpec.
